@@ -886,7 +886,7 @@ def is_regular(c, u, impl):
 
 def corr_subst(ck, n):
     rng = ck.rng
-    raised = changed = 0
+    raised = changed = covered = 0
     for it in range(n):
         impl, itags = lib_impl(rng) if rng.random() < 0.3 else rand_impl(rng)
         c, htags = rand_host(rng, impl)
@@ -911,17 +911,35 @@ def corr_subst(ck, n):
             ck.broken_tie('substitute model correspondence: regularB', f'model {flag} != harness {htags[-1]}', inp={'request': req})
         feats = impl_features(impl)
         if real != 'raise' and (len(c.nodes) < nodes0 + sum(1 for q in impl.nodes if q not in impl.io_nodes) - 1): changed += 1
+        # hypotheses of the theorem C10.substitute_sem evaluated on this case (coverage of the theorem on real circuits), and its
+        # conclusion `result well-formed` checked on the dump of the REAL result
+        semtag = 'sem-hyp:raise'
+        if real != 'raise':
+            try:
+                hyp = common.run_driver(['substok' + req[len('subst'):]])[0].split()
+                names = ['host-wf', 'impl-wf', 'cell-no-port', 'cell-no-fork', 'keepsAll', 'implOK']
+                failed = [nm for nm, v in zip(names, hyp) if v != '1']
+                semtag = 'sem-hyp:covered' if not failed else 'sem-hyp:uncovered:' + failed[0]
+                if not failed:
+                    covered += 1
+                    rwf = common.run_driver([f'xform wf {names_arg(c)} {circ.dump_net(c)}'])[0]
+                    if rwf != '1' or hyp[7] != '1':
+                        ck.broken_tie('substitute_wf on the real result', f'hypotheses of substitute_sem hold but wf(real result) = {rwf}, '
+                                      f'wf(model result) = {hyp[7]}', inp={'request': req})
+            except Exception as ex:
+                ck.broken_tie('substitute_sem hypotheses', f'driver: {type(ex).__name__}: {ex}'[:300], inp={'request': req})
         ck.case(key=('subst', req), nontrivial=real != 'raise' and len(impl.nodes) > 0,
-                tag=['stream:corr-subst', f"subst-result:{'raise' if real == 'raise' else 'ok'}"] + [f'impl:{t}' for t in itags] +
+                tag=['stream:corr-subst', f"subst-result:{'raise' if real == 'raise' else 'ok'}", semtag] + [f'impl:{t}' for t in itags] +
                     [f'impl-shape:{x}' for x in feats] + [f'host:{t}' for t in sorted(set(htags))])
     ck.extra['corr_subst_raised'] = raised
     ck.extra['corr_subst_with_removed_nodes'] = changed
+    ck.extra['corr_subst_in_hypotheses_of_substitute_sem'] = covered
 
 
 def corr_resolve(ck, n):
     """resolve_tlib_cells(): model (resolveCells = substitute folded over the snapshot of the nodes) vs real code"""
     rng = ck.rng
-    raised = 0
+    raised = covered = 0
     for it in range(n):
         if rng.random() < 0.3:
             tl = rand_synth_lib(rng); special = None; libtag = 'synthetic'
@@ -944,9 +962,26 @@ def corr_resolve(ck, n):
             continue
         if out != real:
             ck.broken_tie('resolve_tlib_cells model correspondence', f'model {out[:300]} != real {real[:300]}', inp={'request': req[:4000]})
+        # hypotheses of C10.resolve_sem on this case, conclusion `result well-formed` on the real dump
+        semtag = 'sem-hyp:raise'
+        if real != 'raise':
+            try:
+                hyp = common.run_driver(['resolveok' + req[len('resolve'):]])[0].split()
+                ok = hyp[0] == '1' and hyp[1] == '1'
+                semtag = 'sem-hyp:covered' if ok else ('sem-hyp:uncovered:' + ('host-wf' if hyp[0] != '1' else hyp[3].split(':')[0]))
+                why = hyp[3]
+                if ok:
+                    covered += 1
+                    rwf = common.run_driver([f'xform wf {names_arg(c)} {circ.dump_net(c)}'])[0]
+                    if rwf != '1' or hyp[2] != '1':
+                        ck.broken_tie('resolve_sem: well-formed result on the real circuit', f'resolveOKB holds but wf(real result) = {rwf}, '
+                                      f'wf(model result) = {hyp[2]}', inp={'request': req[:4000]})
+            except Exception as ex:
+                ck.broken_tie('resolve_sem hypotheses', f'driver: {type(ex).__name__}: {ex}'[:300], inp={'request': req[:4000]})
         ck.case(key=('resolve', req), nontrivial=real != 'raise' and len(kinds) > 0,
-                tag=['stream:corr-resolve', f'lib:{libtag}', f'instances:{min(len(kinds), 4)}', f"resolve-result:{'raise' if real == 'raise' else 'ok'}"])
+                tag=['stream:corr-resolve', f'lib:{libtag}', f'instances:{min(len(kinds), 4)}', f"resolve-result:{'raise' if real == 'raise' else 'ok'}", semtag])
     ck.extra['corr_resolve_raised'] = raised
+    ck.extra['corr_resolve_in_hypotheses_of_resolve_sem'] = covered
 
 
 def compose_case(rng, thorough):
